@@ -630,8 +630,9 @@ def run_models(jobs, namer=None, chunk=1000, batch=25):
     kind, items = job[0], job[1]
     if len(job) > 2:
       parsers[jn] = job[2]
-    for i in range(0, len(items), chunk):
-      part = items[i:i + chunk]
+    jchunk = job[3] if len(job) > 3 else chunk      # small chunks = more files = more parallelism
+    for i in range(0, len(items), jchunk):
+      part = items[i:i + jchunk]
       lines = []
       if kind == "state":
         used = set()
@@ -642,9 +643,12 @@ def run_models(jobs, namer=None, chunk=1000, batch=25):
       for j in range(0, len(part), batch):
         lst = "; ".join(part[j:j + batch])
         lines.append(("Eval vm_compute in (map rs [%s]).\n" if kind == "state" else "Eval vm_compute in [%s].\n") % lst)
-      name = "c18_%s_%04d" % (kind, i // chunk)
+      name = "c18_%s_%04d" % (kind, i // jchunk)
       hdr = HEADER + {"rstate": "From PV Require Import Flow.Proofs.\n",
-                      "frame": "From PV Require Import Flow.Frame.\n"}.get(kind, "")
+                      "frame": "From PV Require Import Flow.Frame.\n",
+                      "gav": "From PV Require Import Flow.Api.\n",
+                      "var": "From PV Require Import Flow.Api.\n",
+                      "wf": "From PV Require Import Flow.Api.\n"}.get(kind, "")
       bodies.append((name, hdr + "".join(lines)))
       meta.append((jn, kind, name, len(part)))
   results = run_files_parallel(bodies, timeout=900)
@@ -1002,7 +1006,15 @@ def run(res):
               "one representative per distinct reachable state, plus random merge_into pairs of <=2-operation states, "
               "plus a time-boxed sampled stream of histories with 5 or more operations (mostly 5-9) (half shaped branch/branch -> merge -> "
               "with_condition -> store over an existing name -> merge_into) whose real states are compared under "
-              "all valuations with a reference interpreter of the property; frames: the real FrameBase over every forward "
+              "all valuations with a reference interpreter of the property; normal form: every constructor call above is also "
+              "checked for cond_wf of its result, for 'result is an argument, a constant or a composite of arguments' and "
+              "every distinct term for the unit/zero/idempotence/complement/double-negation laws; API: get_atomic_value / "
+              "is_atomic (6 runtime types incl. subscripted generics and a metaclass __instancecheck__) / has_atomic_value "
+              "/ with_value / with_name / values on every Variable with 0..2 bindings over 2 values x {TRUE, a, not a} x "
+              "2 names, load_local / get_locals / store-load round trip on every distinct state of <=2 operations, the "
+              "shape of with_condition on every enumerated with_condition history; loops: every block graph with >=1 back "
+              "edge up to 3 blocks, samples of 4 and 5 blocks (forward-path oracle, final-state oracle); "
+              "frames: the real FrameBase over every forward "
               "block graph of <=4 (thorough 5) blocks (last opcode: fall-through / jump / conditional jump on one of 2 "
               "atoms / return) x sampled straight-line stores and initial locals, entry states, _states and "
               "_final_locals compared with the model, entry states checked by path enumeration; "
@@ -1016,7 +1028,10 @@ def run(res):
       "frame_base.py: FrameBase.__init__/step/_merge_state_into are modelled at block granularity (Flow/Frame.v) and "
       "driven for real over fake opcodes; the opcode handlers (store, JUMP_FORWARD-like, POP_JUMP_IF_FALSE-like with "
       "conditions a / Not(a)) are harness code mirroring rewrite/frame.py, whose own handlers use a placeholder "
-      "Condition(); loops (back edges) are outside the theorem and the generated graphs",
+      "Condition(); block graphs with back edges are inside the theorems (frame_loop_join_exact, frame_final_exact) "
+      "and the generated graphs; atoms are time-independent (a loop condition has one truth value per valuation)",
+      "a runtime type passed to get_atomic_value/is_atomic is modelled by its isinstance predicate on the value ids "
+      "(after typing.get_origin for get_atomic_value); is_atomic with a subscripted generic (TypeError) is not modelled",
       "generator, canonical renderer and differ in harness/props/c18.py",
   ]
   common.coq_obligations(res, "C18")
@@ -1039,8 +1054,20 @@ def run(res):
 
   # ---- model side (coqc in the background) ------------------------------------------------------------
   import c18_frame  # pylint: disable=import-outside-toplevel
+  import c18_ext  # pylint: disable=import-outside-toplevel
   fcases = c18_frame.gen_cases(common.rng(res.seed, "c18-frame"), thorough)
+  n_forward_cases = len(fcases)
+  fcases = fcases + c18_frame.gen_loop_cases(common.rng(res.seed, "c18-loop"), thorough)
   wits = witnesses()
+  # normal form: the real results of all constructor calls (distinct) + hand-built objects
+  call_results = [call_cond(k, a) for k, a, _ in calls]
+  wf_terms = {}
+  for rr in call_results + c18_ext.handbuilt_conditions():
+    wf_terms.setdefault(canon(rr), rr)
+  wf_keys = sorted(wf_terms)
+  # API: variables x runtime types
+  avars = c18_ext.variable_universe()
+  gav_cases = [(v, t) for v in avars for t in c18_ext.types()]
   namer = Namer()
   for lvl in levels[:-1]:
     for p, _ in lvl:
@@ -1048,11 +1075,14 @@ def run(res):
   box = {}
   def model_thread():
     try:
-      box["cond"], box["state"], box["wit"], box["frame"] = run_models(
+      (box["cond"], box["state"], box["wit"], box["frame"], box["wf"], box["gav"], box["var"]) = run_models(
           [("cond", [call_to_coq(k, a) for k, a, _ in calls]),
            ("state", [namer.term(p) for p in progs]),
            ("rstate", [w[1] for w in wits]),
-           ("frame", [c18_frame.spec_to_coq(sp, ini) for sp, ini in fcases], c18_frame.parse_model)], namer)
+           ("frame", [c18_frame.spec_to_coq(sp, ini) for sp, ini in fcases], c18_frame.parse_model, 150),
+           ("wf", ["cond_wfb %s" % canon_to_coq(k) for k in wf_keys], c18_ext.parse_bool),
+           ("gav", [c18_ext.gav_item(v, t) for v, t in gav_cases], c18_ext.parse_gav),
+           ("var", [c18_ext.var_item(v) for v in avars], c18_ext.parse_var_item)], namer)
     except BaseException as e:  # pylint: disable=broad-except
       box["error"] = e
   th = threading.Thread(target=model_thread)
@@ -1100,6 +1130,52 @@ def run(res):
   res.count(None, n_vw)
   res.obligation("oracle:Variable.with_condition", n_vw_bad == 0, "%d of %d" % (n_vw_bad, n_vw))
 
+  # ---- leg 1b: normal form of constructed terms (cond_wf), result shape, laws -----------------------------
+  n_nf_bad = 0
+  for (k, a, _), rr in zip(calls, call_results):
+    why = None
+    if all(c18_ext.wf_real(x) is None for x in a):
+      why = c18_ext.wf_real(rr) or c18_ext.shape_real(k, a, rr)
+    if why is not None:
+      n_nf_bad += 1
+      if n_nf_bad <= 2:
+        res.violation(("condition-normal-form:%s(%s)" % (k, ",".join(canon_str(canon(x)) for x in a)))[:120],
+                      "%s(%s) = %s breaks the normal form the constructors keep: %s" % (
+                          k, ", ".join(canon_str(canon(x)) for x in a), canon_str(canon(rr)), why),
+                      {"kind": "wf", "call": k, "args": [canon(x) for x in a]})
+  res.obligation("oracle:conditions-normal-form", n_nf_bad == 0, "%d of %d calls" % (n_nf_bad, len(calls)))
+  law_terms = [wf_terms[k] for k in wf_keys if c18_ext.wf_real(wf_terms[k]) is None]
+  n_law_bad = 0
+  for t in law_terms:
+    lf = c18_ext.law_failures(t)
+    res.count(None, 19)
+    if lf:
+      n_law_bad += 1
+      if n_law_bad <= 2:
+        res.violation(("condition-law:%s:%s" % (lf[0][0], canon_str(canon(t))))[:120],
+                      "law %s fails for t = %s: got %s" % (lf[0][0], canon_str(canon(t)), lf[0][1]),
+                      {"kind": "law", "term": canon(t)})
+  res.obligation("oracle:conditions-laws", n_law_bad == 0, "%d of %d terms" % (n_law_bad, len(law_terms)))
+  res.extra["normal_form"] = {"calls_checked": len(calls), "distinct_terms_for_cond_wfb": len(wf_keys),
+                              "terms_for_laws": len(law_terms)}
+
+  # ---- leg 2b: the rest of Variable's public API, specification decided on the real objects ---------------
+  n_api_bad = 0
+  for v in avars:
+    why = c18_ext.variable_api_oracle(v)
+    res.count(("api", render_var(v)) if v.bindings else None)
+    if why:
+      n_api_bad += 1
+      if n_api_bad <= 2:
+        res.violation(("variable-api:%s" % why[0])[:110] + ":" + str(len(v.bindings)),
+                      "%r: %s" % (v, "; ".join(why[:3])),
+                      {"kind": "api", "bindings": [[b.value, canon(b.condition)] for b in v.bindings], "name": v.name})
+  res.obligation("oracle:Variable-api", n_api_bad == 0, "%d of %d variables" % (n_api_bad, len(avars)))
+  real_gav = [c18_ext.real_gav(v, t[1]) for v, t in gav_cases]
+  real_var = [c18_ext.real_var_answers(v) for v in avars]
+  res.extra["variable_api"] = {"variables": len(avars), "get_atomic_value_calls": len(gav_cases),
+                               "outcomes": {str(k): sum(1 for r0 in real_gav if r0[0] == k) for k in range(4)}}
+
   # ---- leg 3: histories on the real classes + oracle on every with_condition / merge_into --------------
   kinds = {}
   real_states = []
@@ -1117,6 +1193,29 @@ def run(res):
       n_viol += 1
       report_history_violation(res, p, n_viol, memo)
   res.extra["history_top_operation"] = kinds
+  n_sapi_bad = 0
+  n_sapi = 0
+  for p in reps:
+    n_sapi += 1
+    why = c18_ext.state_api_oracle(p)
+    if why:
+      n_sapi_bad += 1
+      if n_sapi_bad <= 2:
+        res.violation(("state-api:%s" % why[0])[:100], "%s: %s" % (prog_str(p), "; ".join(why[:3])),
+                      {"kind": "stateapi", "history": prog_json(p)})
+  n_wsh = 0
+  for p in progs:
+    if p[0] == "with":
+      n_wsh += 1
+      why = c18_ext.with_shape_oracle(p)
+      if why:
+        n_sapi_bad += 1
+        if n_sapi_bad <= 2:
+          res.violation(("with_condition-shape:%s" % prog_str(p))[:110], "%s: %s" % (prog_str(p), "; ".join(why[:3])),
+                        {"kind": "withshape", "history": prog_json(p)})
+  res.count(None, n_sapi + n_wsh)
+  res.obligation("oracle:BlockState-api(load_local/get_locals/with_condition-shape)", n_sapi_bad == 0,
+                 "%d failures over %d states + %d with_condition calls" % (n_sapi_bad, n_sapi, n_wsh))
 
   # ---- leg 3b: sampled deeper histories (5 or more operations), real objects vs the reference semantics ------
   rd = common.rng(res.seed, "c18-deep")
@@ -1168,19 +1267,28 @@ def run(res):
     n_dead += sts is None
     reached = sum(1 for e in ents if e is not None)
     res.count(("frame", sp, ini) if reached >= 3 else None)
-    bad = c18_frame.path_oracle(sp, ini, snaps)
+    bad = c18_frame.path_oracle(sp, ini, snaps) or c18_frame.final_oracle(sp, ini)
     if bad is not None:
       n_fviol += 1
       if n_fviol <= 2:
         res.violation(("frame-join-not-exact:%s" % c18_frame.spec_str(sp, ini))[:140],
-                      "%s: under valuation %s the entry state of block #%d gives %s = %s, the enabled path gives %s" % (
-                          c18_frame.spec_str(sp, ini), bad[0], bad[1], bad[2], bad[3], bad[4]),
+                      "%s: under valuation %s the %s gives %s = %s, the enabled (forward) path gives %s" % (
+                          c18_frame.spec_str(sp, ini), bad[0],
+                          "final state" if bad[1] == "final" else "entry state of block #%d" % bad[1],
+                          bad[2], bad[3], bad[4]),
                       {"kind": "frame", "spec": [[list(map(list, st)), list(t)] for st, t in sp],
                        "init": [list(xv) for xv in ini]})
   res.obligation("oracle:frame-path-enumeration", n_fviol == 0,
                  "%d of %d block graphs: an entry state differs from the path semantics" % (n_fviol, len(fcases)))
-  res.extra["frame_graphs"] = {"n": len(fcases), "by_blocks": dict(sorted(fhist.items())),
-                               "died_with_KeyError(unreachable block)": n_dead}
+  res.extra["frame_graphs"] = {"n": len(fcases), "forward": n_forward_cases, "with_back_edges": len(fcases) - n_forward_cases,
+                               "by_blocks": dict(sorted(fhist.items())),
+                               "died_with_KeyError(unreachable block)": n_dead,
+                               "final_states_checked": len(c18_frame.FINAL_SNAPS)}
+  wsp, wgot, wok = c18_frame.all_paths_witness()
+  res.obligation("witness:frame_loop_all_paths_refuted-on-real-FrameBase", wok,
+                 "%s: header entry state allows n0 in %s under a0=True (the path around the loop brings 2)" % (wsp, wgot))
+  res.extra["outside_quantifier_loop_witness"] = {"graph": wsp, "header_n0_values_under_a0_true": wgot,
+                                                  "value_2_from_the_loop_body_missing": wok}
   for sp, ini in fcases[:2]:
     res.sample({"frame_graph": c18_frame.spec_str(sp, ini),
                 "real_final_locals": str(c18_frame.run_real(sp, ini)[2])})
@@ -1277,6 +1385,21 @@ def run(res):
   res.obligation("correspondence:FrameBase-block-graphs", not fmism,
                  "%d of %d block graphs disagree; first: %s" % (
                      len(fmism), len(fcases), [c18_frame.spec_str(*fcases[i]) for i in fmism[:2]]))
+  wf_real_ans = [c18_ext.wf_real(wf_terms[k]) is None for k in wf_keys]
+  wmism = [i for i in range(len(wf_keys)) if box["wf"][i] != wf_real_ans[i]]
+  res.obligation("correspondence:cond_wfb", not wmism,
+                 "%d of %d terms: model cond_wfb and the oracle on the real object disagree; first: %s" % (
+                     len(wmism), len(wf_keys), [canon_str(wf_keys[i]) for i in wmism[:2]]))
+  gmism = [i for i in range(len(gav_cases)) if tuple(box["gav"][i]) != tuple(real_gav[i])]
+  res.obligation("correspondence:Variable.get_atomic_value", not gmism,
+                 "%d of %d calls disagree; first: %s" % (
+                     len(gmism), len(gav_cases),
+                     [(repr(gav_cases[i][0]), gav_cases[i][1][0], real_gav[i], box["gav"][i]) for i in gmism[:2]]))
+  vmism = [i for i in range(len(avars)) if box["var"][i] != real_var[i]]
+  for i in vmism[:2]:
+    common.log("[C18] variable api mismatch: %r\n   real =%s\n   model=%s" % (avars[i], real_var[i], box["var"][i]))
+  res.obligation("correspondence:Variable-api(is_atomic/has_atomic_value/with_value/with_name/values)", not vmism,
+                 "%d of %d variables disagree; first: %s" % (len(vmism), len(avars), [repr(avars[i]) for i in vmism[:2]]))
   bad_w = [w[0] for w, mw in zip(wits, box["wit"]) if mw != w[2]]
   res.obligation("correspondence:hand-built-witnesses", not bad_w, "model and real classes differ on %s" % bad_w)
   res.extra["outside_quantifier_witnesses_violate_on_real_code"] = {w[0]: w[3] for w in wits}
@@ -1314,6 +1437,30 @@ def replay(res, path):
     print("var   :", v, " with_condition", c, "->", r)
     print("oracle:", bad)
     return 1 if bad is not None else 0
+  if rp["kind"] in ("wf", "law", "api", "stateapi", "withshape"):
+    import c18_ext  # pylint: disable=import-outside-toplevel
+    m = impl()
+    if rp["kind"] == "wf":
+      args = [cond_from_canon(a) for a in rp["args"]]
+      r = call_cond(rp["call"], args)
+      why = c18_ext.wf_real(r) or c18_ext.shape_real(rp["call"], args, r)
+      print("call  :", rp["call"], [canon_str(canon(a)) for a in args], "->", canon_str(canon(r)))
+      print("normal-form oracle:", why)
+      return 1 if why else 0
+    if rp["kind"] == "law":
+      t = cond_from_canon(rp["term"])
+      lf = c18_ext.law_failures(t)
+      print("term:", canon_str(canon(t)), " failing laws:", lf)
+      return 1 if lf else 0
+    if rp["kind"] == "api":
+      v = m.V.Variable(tuple(m.V.Binding(x, cond_from_canon(c)) for x, c in rp["bindings"]), rp["name"])
+      why = c18_ext.variable_api_oracle(v)
+      print("variable:", v, " failures:", why)
+      return 1 if why else 0
+    p = prog_from_json(rp["history"])
+    why = c18_ext.state_api_oracle(p) if rp["kind"] == "stateapi" else c18_ext.with_shape_oracle(p)
+    print("history:", prog_str(p), " failures:", why)
+    return 1 if why else 0
   if rp["kind"] == "frame":
     import c18_frame  # pylint: disable=import-outside-toplevel
     sp = tuple((tuple(tuple(xv) for xv in st), tuple(t)) for st, t in rp["spec"])
@@ -1323,8 +1470,8 @@ def replay(res, path):
     for k, e in enumerate(ents):
       print("  entry state of block #%d:" % k, e)
     print("  final locals:", fl)
-    bad = c18_frame.path_oracle(sp, ini, snaps)
-    print("path oracle (valuation, block #, what, got, want):", bad)
+    bad = c18_frame.path_oracle(sp, ini, snaps) or c18_frame.final_oracle(sp, ini)
+    print("forward-path / final-state oracle (valuation, block # or 'final', what, got, want):", bad)
     return 1 if bad is not None else 0
   p = prog_from_json(rp["history"])
   print("history:", prog_str(p))
